@@ -24,13 +24,16 @@ func init() {
 		ID:    "C07",
 		Level: "exploration",
 		Rule: "every well-formed EFI_SIGNATURE_LIST stream over {X.509 (data length 1,5,6), SHA-256, externally-managed} lists x 0..n entries x owner{A,B} x fill{p,q}, " +
-			"in every order, up to the list bound, plus the repository's captured variables; each stream is decoded by the library and compared field by field with the reference decode and re-encoded byte for byte. " +
-			"non-trivial = reference and library both produced at least one list; distinct = distinct stream bytes",
-		Assumptions: []string{"reference codec refesl written from UEFI 2.8 section 32.4.1", "converse direction (databases built by library operations) is executed inside C09's state-space search"},
+			"in every order, up to the list bound, plus the repository's captured variables (each also decoded through a *bytes.Buffer that is scribbled over afterwards: the decoded value must not alias it); each stream is decoded by the library and compared field by field with the reference decode and re-encoded byte for byte. " +
+			"converse: every database built from the empty one by <=2 (thorough 3) operations of the C09 alphabet (database- and list-level appends with DER/PEM input, removes, AppendList, AppendDatabase) must encode to a well-formed stream carrying exactly its lists and decode to an equal database. non-trivial = reference and library both produced at least one list; distinct = distinct stream bytes",
+		Assumptions: []string{"reference codec refesl written from UEFI 2.8 section 32.4.1", "the converse direction is also evaluated in every state of C09's deeper search"},
 		Units: func(tier string) []string {
 			var u []string
 			for i := 0; i < c07Shards; i++ {
 				u = append(u, "streams#"+strconv.Itoa(i))
+			}
+			for i := range c09Ops() {
+				u = append(u, "converse#"+strconv.Itoa(i))
 			}
 			return append(u, "fixtures")
 		},
@@ -51,6 +54,7 @@ func c07Bound(tier string) (maxLists, maxEntries int) {
 }
 
 func c07CheckStream(c *hx.Ctx, s []byte, want []refesl.List, label string) {
+	aliasing := false
 	var db signature.SignatureDatabase
 	var err error
 	var enc []byte
@@ -58,6 +62,26 @@ func c07CheckStream(c *hx.Ctx, s []byte, want []refesl.List, label string) {
 		db, err = signature.ReadSignatureDatabase(bytes.NewReader(s))
 		if err == nil {
 			enc = db.Bytes()
+		}
+		// the decoded value must not depend on the caller's buffer: decode through a
+		// *bytes.Buffer (the path GetVar uses), reuse the buffer, then look at the value
+		if err == nil && len(s) > 0 {
+			buf := bytes.NewBuffer(append([]byte{}, s...))
+			var db2 signature.SignatureDatabase
+			if e2 := db2.Unmarshal(buf); e2 == nil {
+				backing := buf.Bytes()[:0]
+				backing = backing[:cap(backing)]
+				for i := range backing {
+					backing[i] ^= 0xff
+				}
+				buf.Reset()
+				buf.Write(bytes.Repeat([]byte{0xee}, len(s)))
+				if !bytes.Equal(db2.Bytes(), s) {
+					aliasing = true
+				}
+			} else {
+				err = e2
+			}
 		}
 	}); p != nil {
 		c.Outcome("panic")
@@ -78,6 +102,11 @@ func c07CheckStream(c *hx.Ctx, s []byte, want []refesl.List, label string) {
 	if !bytes.Equal(enc, s) {
 		c.Outcome("reencode-mismatch")
 		c.Violation("C07 re-encoding differs from the input: "+typesOf(want), map[string]any{"stream": hx8(s), "reencoded": hx8(enc), "shape": label})
+		return
+	}
+	if aliasing {
+		c.Outcome("decoded-value-aliases-input")
+		c.Violation("C07 a decoded database changes when the caller reuses the buffer it was decoded from", map[string]any{"stream": hx8(s), "shape": label})
 		return
 	}
 	c.Outcome("roundtrip-ok")
@@ -139,9 +168,105 @@ func mismatchClass(why string, want []refesl.List) string {
 	return strings.Join(f, " ") + " in " + where
 }
 
+// c07Converse: every database built through the library's own operations
+// (the C09 alphabet: database-level append/remove with DER and PEM input,
+// list-level AppendBytes + AppendList, AppendDatabase) encodes to a well-formed
+// stream that carries exactly its lists and, when all types are decodable,
+// decodes to an equal database. Bounded breadth-first enumeration of operation
+// sequences from the empty database, first operation fixed per unit.
+func c07Converse(c *hx.Ctx, tier string, first int) {
+	c.NoOnly = true // a state search: cases depend on each other
+	ops := c09Ops()
+	depth := 2
+	if tier == "thorough" {
+		depth = 3
+	}
+	seen := map[string]bool{}
+	type node struct{ path []int }
+	frontier := []node{{nil}}
+	for level := 0; level < depth; level++ {
+		var next []node
+		for _, nd := range frontier {
+			for oi := range ops {
+				if level == 0 && oi != first {
+					continue
+				}
+				if ops[oi].kind == "encdec" {
+					continue
+				}
+				if !c.Next() {
+					continue
+				}
+				db := signature.NewSignatureDatabase()
+				path := append(append([]int{}, nd.path...), oi)
+				var enc []byte
+				var names []string
+				pn := hx.Try(func() {
+					for _, pi := range path {
+						c09Apply(db, ops[pi])
+						names = append(names, ops[pi].name)
+					}
+					enc = db.Bytes()
+				})
+				if pn != nil {
+					c.Violation("C07 building/encoding a database through library operations ends in "+pn.String(), map[string]any{"history": names})
+					continue
+				}
+				k := string(enc) + "|" + c09Key(db)
+				if seen[k] {
+					continue
+				}
+				seen[k] = true
+				next = append(next, node{path})
+				ref, _, err := refesl.Decode(enc)
+				if err != nil {
+					c.Outcome("built-db-malformed")
+					c.Violation("C07 a database built through library operations does not encode to a well-formed stream", map[string]any{"history": names, "stream": hx8(enc), "reference_error": err.Error()})
+					continue
+				}
+				if ok, why := listsEqual(ref, libToRef(*db)); !ok {
+					c.Outcome("built-db-mismatch")
+					c.Violation("C07 the encoding of a database built through library operations does not carry its lists", map[string]any{"history": names, "difference": why})
+					continue
+				}
+				decodable := true
+				for _, l := range ref {
+					if l.Type != refesl.X509 && l.Type != refesl.SHA256 && l.Type != refesl.EXTMGT {
+						decodable = false
+					}
+				}
+				if decodable {
+					back, derr := signature.ReadSignatureDatabase(bytes.NewReader(enc))
+					if derr != nil {
+						c.Outcome("built-db-undecodable")
+						c.Violation("C07 a database built through library operations does not decode again", map[string]any{"history": names, "stream": hx8(enc), "error": derr.Error()})
+						continue
+					}
+					if ok, why := listsEqual(libToRef(back), ref); !ok {
+						c.Outcome("built-db-decodes-differently")
+						c.Violation("C07 a database built through library operations decodes to a different database", map[string]any{"history": names, "difference": why})
+						continue
+					}
+				}
+				c.Outcome("built-db-ok")
+				c.Nontrivial(enc, []byte(c09Key(db)))
+				if len(seen)%200 == 1 {
+					c.Sample(map[string]any{"history": names, "stream_len": len(enc)})
+				}
+			}
+		}
+		frontier = next
+	}
+}
+
 func c07Run(c *hx.Ctx, tier, unit string) {
 	if unit == "fixtures" {
 		c07Fixtures(c)
+		return
+	}
+	if strings.HasPrefix(unit, "converse#") {
+		first, _ := strconv.Atoi(strings.TrimPrefix(unit, "converse#"))
+		c07Converse(c, tier, first)
 		return
 	}
 	shard, _ := strconv.Atoi(strings.TrimPrefix(unit, "streams#"))
